@@ -46,6 +46,13 @@ impl<V> Node<V> {
         let mut max_prefix_item = None;
 
         for i in 0..self.children.len() {
+            // Same regex as this child: always insert into it, so an existing (regex, id) is replaced
+            if self.children[i].regex() == regex {
+                max_prefix_item = Some(i);
+
+                break;
+            }
+
             let prefix_size = common_prefix_char_size(regex, self.children[i].regex());
 
             if prefix_size > max_prefix_size {
